@@ -1,5 +1,5 @@
 /-
-  Neutrality of debug attributes, the framework: a semantic simulation between two programs over the strict
+  Neutrality of debug attributes, the framework: a semantic simulation between two programs over an
   interpreter's state, relating machine states whose graphs are equal once the debug attribute names are removed.
 -/
 import Tsg.Proofs.Strip
@@ -9,27 +9,36 @@ open Prog C15
 
 variable {α β : Type}
 
+/-- how the private states of the two runs are related: equal for the strict interpreter; for the lazy interpreter the
+queued `edge` statements may differ in their debug attributes -/
+class RestRel (ρ : Type) where
+  rr : List String → ρ → ρ → Prop
+
+instance : RestRel SRest := ⟨fun _ a b => a = b⟩
+
+variable {ρ : Type} [RestRel ρ]
+
 /-- machine states that differ only in attributes named in `names` -/
-def Rel (names : List String) (sD sP : MSt SRest) : Prop :=
-  strip names sD.graph = strip names sP.graph ∧ sD.rest = sP.rest ∧ sD.ps = sP.ps
+def Rel (names : List String) (sD sP : MSt ρ) : Prop :=
+  strip names sD.graph = strip names sP.graph ∧ RestRel.rr names sD.rest sP.rest ∧ sD.ps = sP.ps
 
 /-- results that agree: same value or same failure, related states -/
-def RelRes (names : List String) : Res (MSt SRest) α → Res (MSt SRest) α → Prop
+def RelRes (names : List String) : Res (MSt ρ) α → Res (MSt ρ) α → Prop
   | .ok a sD, .ok a' sP => a = a' ∧ Rel names sD sP
   | .fail f sD, .fail f' sP => f = f' ∧ Rel names sD sP
   | _, _ => False
 
 /-- `tD` (the run with debug attributes) simulates `tP` (the plain run) -/
-def Sim (names : List String) (tD tP : Prog SRest α) : Prop :=
+def Sim (names : List String) (tD tP : Prog ρ α) : Prop :=
   ∀ sD sP, Rel names sD sP → RelRes names (run tD sD) (run tP sP)
 
-theorem Sim.pure (names : List String) (a : α) : Sim names (Pure.pure a : Prog SRest α) (Pure.pure a) := by
+theorem Sim.pure (names : List String) (a : α) : Sim names (Pure.pure a : Prog ρ α) (Pure.pure a) := by
   intro sD sP h; exact ⟨rfl, h⟩
 
-theorem Sim.fail (names : List String) (f : Fail) : Sim names (Prog.fail f : Prog SRest α) (Prog.fail f) := by
+theorem Sim.fail (names : List String) (f : Fail) : Sim names (Prog.fail f : Prog ρ α) (Prog.fail f) := by
   intro sD sP h; exact ⟨rfl, h⟩
 
-theorem Sim.bind {names : List String} {tD tP : Prog SRest α} {fD fP : α → Prog SRest β}
+theorem Sim.bind {names : List String} {tD tP : Prog ρ α} {fD fP : α → Prog ρ β}
     (h1 : Sim names tD tP) (h2 : ∀ a, Sim names (fD a) (fP a)) : Sim names (tD >>= fD) (tP >>= fP) := by
   intro sD sP h
   rw [run_bind, run_bind]
@@ -49,7 +58,7 @@ theorem Sim.bind {names : List String} {tD tP : Prog SRest α} {fD fP : α → P
       rw [hD, hP] at this
       exact this
 
-theorem Sim.poll (names : List String) (l : String) : Sim names (pollP l : Prog SRest Unit) (pollP l) := by
+theorem Sim.poll (names : List String) (l : String) : Sim names (pollP l : Prog ρ Unit) (pollP l) := by
   intro sD sP h
   obtain ⟨hg, hr, hp⟩ := h
   simp only [pollP, run, hp]
@@ -64,6 +73,7 @@ theorem Sim.poll (names : List String) (l : String) : Sim names (pollP l : Prog 
 theorem Sim.prim (names : List String) (f : SRest → Except Fail α × SRest) : Sim names (primP f) (primP f) := by
   intro sD sP h
   obtain ⟨hg, hr, hp⟩ := h
+  have hr : sD.rest = sP.rest := hr
   simp only [primP, run, hr]
   cases hf : f sP.rest with
   | mk r s' =>
@@ -71,7 +81,7 @@ theorem Sim.prim (names : List String) (f : SRest → Except Fail α × SRest) :
     | ok b => exact ⟨rfl, hg, rfl, hp⟩
     | error e => exact ⟨rfl, hg, rfl, hp⟩
 
-theorem Sim.ctx {names : List String} {mD mP : Prog SRest α} (c : Ctx) (h : Sim names mD mP) :
+theorem Sim.ctx {names : List String} {mD mP : Prog ρ α} (c : Ctx) (h : Sim names mD mP) :
     Sim names (withContext c mD) (withContext c mP) := by
   intro sD sP hrel
   simp only [withContext, run]
@@ -89,18 +99,18 @@ theorem Sim.ctx {names : List String} {mD mP : Prog SRest α} (c : Ctx) (h : Sim
       obtain ⟨rfl, hr⟩ := this
       exact ⟨rfl, hr⟩
 
-theorem Sim.ofExcept (names : List String) (x : Except EK α) : Sim names (ofExcept x : Prog SRest α) (ofExcept x) := by
+theorem Sim.ofExcept (names : List String) (x : Except EK α) : Sim names (ofExcept x : Prog ρ α) (ofExcept x) := by
   cases x with
   | ok a => exact Sim.pure names a
   | error e => intro sD sP h; exact ⟨rfl, h⟩
 
-theorem Sim.throwK (names : List String) (k : EK) : Sim names (throwK k : Prog SRest α) (throwK k) := by
+theorem Sim.throwK (names : List String) (k : EK) : Sim names (throwK k : Prog ρ α) (throwK k) := by
   intro sD sP h; exact ⟨rfl, h⟩
 
-theorem Sim.failP (names : List String) (f : Fail) : Sim names (failP f : Prog SRest α) (failP f) := by
+theorem Sim.failP (names : List String) (f : Fail) : Sim names (failP f : Prog ρ α) (failP f) := by
   intro sD sP h; exact ⟨rfl, h⟩
 
-theorem Sim.panicAt (names : List String) (site : String) : Sim names (panicAt site : Prog SRest α) (panicAt site) := by
+theorem Sim.panicAt (names : List String) (site : String) : Sim names (panicAt site : Prog ρ α) (panicAt site) := by
   intro sD sP h; exact ⟨rfl, h⟩
 
 
@@ -134,7 +144,7 @@ theorem rel_node {names : List String} {gD gP : CGraph} (h : strip names gD = st
     (gD.node? i).map (stripNode names) = (gP.node? i).map (stripNode names) := by
   rw [← node?_strip, ← node?_strip, h]
 
-theorem Sim.gop_addNode (names : List String) : Sim names (gopP .addNode : Prog SRest Nat) (gopP .addNode) := by
+theorem Sim.gop_addNode (names : List String) : Sim names (gopP .addNode : Prog ρ Nat) (gopP .addNode) := by
   intro sD sP h
   obtain ⟨hg, hr, hp⟩ := h
   simp only [gopP, run, GraphOp.apply]
@@ -144,7 +154,7 @@ theorem Sim.gop_addNode (names : List String) : Sim names (gopP .addNode : Prog 
     rw [strip_addGraphNode, strip_addGraphNode, hg]
 
 theorem Sim.gop_callFn (names : List String) (o : Oracle) (t : Tree) (name : String) (args : List Val) :
-    Sim names (gopP (.callFn o t name args) : Prog SRest Val) (gopP (.callFn o t name args)) := by
+    Sim names (gopP (.callFn o t name args) : Prog ρ Val) (gopP (.callFn o t name args)) := by
   intro sD sP h
   obtain ⟨hg, hr, hp⟩ := h
   simp only [gopP, run, GraphOp.apply, Stdlib.call]
@@ -163,7 +173,7 @@ theorem Sim.gop_callFn (names : List String) (o : Oracle) (t : Tree) (name : Str
 
 /-- an ordinary node attribute: same verdict, related graphs -/
 theorem Sim.gop_addNodeAttr (names : List String) (n : Nat) (k : String) (v : Val) (f : Fail) (hk : names.contains k = false) :
-    Sim names (gopP (.addNodeAttr n k v f) : Prog SRest (Option Unit)) (gopP (.addNodeAttr n k v f)) := by
+    Sim names (gopP (.addNodeAttr n k v f) : Prog ρ (Option Unit)) (gopP (.addNodeAttr n k v f)) := by
   intro sD sP h
   obtain ⟨hg, hr, hp⟩ := h
   have hnode := rel_node hg n
@@ -241,7 +251,7 @@ theorem insertEdge_map_strip (names : List String) (es : List (Nat × Attrs)) (s
 
 /-- an ordinary edge attribute -/
 theorem Sim.gop_addEdgeAttr (names : List String) (src sink : Nat) (k : String) (v : Val) (f : Fail) (hk : names.contains k = false) :
-    Sim names (gopP (.addEdgeAttr src sink k v f) : Prog SRest (Option (Option Unit))) (gopP (.addEdgeAttr src sink k v f)) := by
+    Sim names (gopP (.addEdgeAttr src sink k v f) : Prog ρ (Option (Option Unit))) (gopP (.addEdgeAttr src sink k v f)) := by
   intro sD sP h
   obtain ⟨hg, hr, hp⟩ := h
   have hnode := rel_node hg src
@@ -290,7 +300,7 @@ theorem Sim.gop_addEdgeAttr (names : List String) (src sink : Nat) (k : String) 
 
 /-- an `edge` statement: the attributes given to a NEW edge may differ in debug attributes only -/
 theorem Sim.gop_addEdge (names : List String) (src sink : Nat) (aD aP : Attrs) (ha : stripAttrs names aD = stripAttrs names aP) :
-    Sim names (gopP (.addEdge src sink aD) : Prog SRest (Option Bool)) (gopP (.addEdge src sink aP)) := by
+    Sim names (gopP (.addEdge src sink aD) : Prog ρ (Option Bool)) (gopP (.addEdge src sink aP)) := by
   intro sD sP h
   obtain ⟨hg, hr, hp⟩ := h
   have hnode := rel_node hg src
@@ -337,9 +347,9 @@ theorem node?_setNode_same (g : CGraph) (i : Nat) (n nd : GNode) (h : g.node? i 
   simp [hlt]
 
 /-- a debug attribute on a node that does not carry it yet: no conflict, invisible after stripping -/
-theorem run_addDebug (names : List String) (s : MSt SRest) (n : Nat) (k : String) (v : Val) (nd : GNode)
+theorem run_addDebug (names : List String) (s : MSt ρ) (n : Nat) (k : String) (v : Val) (nd : GNode)
     (hn : s.graph.node? n = some nd) (hfresh : nd.attrs.lookup k = none) (hk : names.contains k = true) :
-    ∃ g', run (Strict.addDebugNodeAttr n k v : Prog SRest Unit) s = .ok () { s with graph := g' } ∧
+    ∃ g', run (Strict.addDebugNodeAttr n k v : Prog ρ Unit) s = .ok () { s with graph := g' } ∧
       strip names g' = strip names s.graph ∧ g'.node? n = some { nd with attrs := nd.attrs ++ [(k, v)] } := by
   refine ⟨s.graph.setNode n { nd with attrs := nd.attrs ++ [(k, v)] }, ?_, ?_, node?_setNode_same _ _ _ _ hn⟩
   · simp only [Strict.addDebugNodeAttr, Strict.addAttribute, run_bind, gopP, run, GraphOp.apply, CGraph.addNodeAttr, hn, Attrs.add, hfresh]
